@@ -35,7 +35,8 @@ VARIABLES st,        \* status word (only grows)
           mayExit,   \* actors whose task may end spontaneously (constant in M, set per run in traces)
           apc,       \* program counter of each actor's task
           phase,     \* "early" (handle_signal's sweep) | "cleanup" (the guard's sweep)
-          awork,     \* terminate(): actors still to visit
+          awork,     \* terminate(): actors still to visit, a bag (an actor that was relinked under
+                     \* another member of the subtree while the sweep runs is found, and visited, twice)
           acur,      \* terminate(): actor being visited
           asup,      \* cleanup: the supervisor read before the final unlink
           nenv,      \* environment operations performed
@@ -46,13 +47,16 @@ vars == <<st, sup, children, sig, mayExit, apc, phase, awork, acur, asup, nenv, 
 
 IsOpen(a) == children[a] # CLOSED
 Kids(a) == IF IsOpen(a) THEN children[a] ELSE {}
+NoWork == [x \in Actors |-> 0]
+Only(a) == [x \in Actors |-> IF x = a THEN 1 ELSE 0]
+InWork(a) == {x \in Actors : awork[a][x] > 0}
 
 Init ==
   /\ st = InitSt /\ sup = InitSup
   /\ children = [a \in Actors |-> {c \in Actors : InitSup[c] = a}]
   /\ sig = [a \in Actors |-> "none"] /\ mayExit = InitMayExit
   /\ apc = [a \in Actors |-> "live"] /\ phase = [a \in Actors |-> "none"]
-  /\ awork = [a \in Actors |-> {}] /\ acur = [a \in Actors |-> NoA] /\ asup = [a \in Actors |-> NoA]
+  /\ awork = [a \in Actors |-> NoWork] /\ acur = [a \in Actors |-> NoA] /\ asup = [a \in Actors |-> NoA]
   /\ nenv = 0 /\ lk = InitSup /\ dev = {}
 
 -----------------------------------------------------------------------------
@@ -121,7 +125,7 @@ ABeginStop(a) ==
 ASigTake(a) ==
   /\ apc[a] \in {"live", "poststop"} /\ sig[a] = "sent"
   /\ sig' = [sig EXCEPT ![a] = "taken"] /\ Pc(a, "t.pick")
-  /\ phase' = [phase EXCEPT ![a] = "early"] /\ awork' = [awork EXCEPT ![a] = {a}]
+  /\ phase' = [phase EXCEPT ![a] = "early"] /\ awork' = [awork EXCEPT ![a] = Only(a)]
   /\ UNCHANGED <<st, Tree, mayExit, acur, asup, nenv, dev>>
 \* a kill that landed in the message loop: the loop publishes Stopping before the guard runs
 AKilledStopping(a) ==
@@ -136,14 +140,14 @@ ACleanupBegin(a) ==
 ACStopping(a) ==
   /\ apc[a] = "c.stopping"
   /\ st' = [st EXCEPT ![a] = Max(@, Stopping)] /\ Pc(a, "t.pick")
-  /\ phase' = [phase EXCEPT ![a] = "cleanup"] /\ awork' = [awork EXCEPT ![a] = {a}]
+  /\ phase' = [phase EXCEPT ![a] = "cleanup"] /\ awork' = [awork EXCEPT ![a] = Only(a)]
   /\ UNCHANGED <<Tree, sig, mayExit, acur, asup, nenv, dev>>
 
 \* terminate(), one visited actor = a kill step (status load + one-shot send) and a take step.
-\* The worklist is kept as a set: the order in which HashMap hands out the children is open.
+\* The worklist is kept as a bag: the order in which HashMap hands out the children is open.
 Visit(a, x) ==
-  /\ apc[a] = "t.pick" /\ x \in awork[a]
-  /\ acur' = [acur EXCEPT ![a] = x] /\ awork' = [awork EXCEPT ![a] = @ \ {x}] /\ Pc(a, "t.take")
+  /\ apc[a] = "t.pick" /\ awork[a][x] > 0
+  /\ acur' = [acur EXCEPT ![a] = x] /\ awork' = [awork EXCEPT ![a][x] = @ - 1] /\ Pc(a, "t.take")
 ATermKill(a, x) ==
   /\ Visit(a, x) /\ st[x] < Stopping /\ KillWord(x)
   /\ UNCHANGED <<st, Tree, mayExit, phase, asup, nenv, dev>>
@@ -158,10 +162,11 @@ Dev_DrainingChildNotKilled(a, x) ==
   /\ UNCHANGED <<st, Tree, sig, mayExit, phase, asup, nenv>>
 ATermTake(a) ==
   /\ apc[a] = "t.take"
-  /\ TakeRegion(acur[a]) /\ awork' = [awork EXCEPT ![a] = @ \cup Kids(acur[a])] /\ Pc(a, "t.pick")
+  /\ TakeRegion(acur[a]) /\ Pc(a, "t.pick")
+  /\ awork' = [awork EXCEPT ![a] = [x \in Actors |-> awork[a][x] + (IF x \in Kids(acur[a]) THEN 1 ELSE 0)]]
   /\ UNCHANGED <<st, sig, mayExit, phase, acur, asup, nenv, lk, dev>>
 ATermDone(a) ==
-  /\ apc[a] = "t.pick" /\ awork[a] = {}
+  /\ apc[a] = "t.pick" /\ InWork(a) = {}
   /\ Pc(a, IF phase[a] = "early" THEN "killed" ELSE "c.notify")
   /\ UNCHANGED <<st, Tree, sig, mayExit, phase, awork, acur, asup, nenv, dev>>
 
@@ -232,7 +237,7 @@ Signalled(d) == sig[d] # "none" \/ st[d] >= Stopping
 \* children that sweep is about to take)
 PendingSweep(d) == \E q \in Actors :
                      /\ apc[q] \in {"t.pick", "t.take"}
-                     /\ \/ \E e \in awork[q] : d = e \/ d \in LkDesc(e)
+                     /\ \/ \E e \in InWork(q) : d = e \/ d \in LkDesc(e)
                         \/ (apc[q] = "t.take" /\ d \in LkDesc(acur[q]))
 TermDone(p) == apc[p] \in {"killed", "c.notify", "c.supread", "c.unlink", "c.setstopped", "dead"}
 \* once p's sweep is over, everything linked beneath it has been killed (or is already on its way
